@@ -356,9 +356,6 @@ func short(s string) string {
 var reviewedSinks = map[string]string{
 	"(consensus.ElementAccumulator).UnmarshalJSON:index:index …":     "v.Trees is consumed once per set bit of NumLeaves after the guard len(v.Trees) == OnesCount64(NumLeaves) (row accumulator-json-length)",
 	"(consensus.ElementAccumulator).UnmarshalJSON:slice-low:slice-low …": "same invariant as the index above",
-	"(consensus.ElementAccumulator).containsLeaf:index:index {consensus.State}.Elements.Trees":                                   "hasTreeAtHeight(len(proof)) is true only for heights < 64 (1<<h is 0 beyond), which is len(Trees); required by C04 row tree-exists",
-	"(consensus.ElementAccumulator).containsLeaf:index:index {consensus.MidState}.base.Elements.Trees":                           "as above",
-	"(consensus.ElementAccumulator).containsLeaf:index:index call consensus.NewMidState({consensus.State}).base.Elements.Trees": "as above",
 	"(gateway.V2BlockOutline).decodeFrom:index:index …":      "txns/v2txns/hashes are consumed once per kind after the cross-check counts[k] == len(...) (rows outline-kind-range, outline-count-crosscheck)",
 	"(gateway.V2BlockOutline).decodeFrom:slice-low:slice-low …": "as above",
 	"(types.V2TransactionsMultiproof).DecodeFrom:make:make []types.Hash256": "proof lengths bits.Len64(index^count)-1 are non-negative because index < count was checked (row multiproof-leaf-index); the multiproof buffer is sized from those proofs after the bail-out on error (row multiproof-bail-on-error)",
